@@ -49,6 +49,10 @@ def op_strategy(kind, none_p=True, bulk_empty=True, heavy=True, only=None):
             items = st.lists(st.tuples(mem1, ct2, eb, a).map(list), max_size=3)
         else:
             items = st.lists(st.tuples(eb, mem1, ct2).map(list), max_size=3)
+        if fmt == 5:
+            # ... or IDs at / above the counter in decreasing order (the largest comes first)
+            desc = st.tuples(mem1, ct2, mem1, ct2).map(lambda t: [[["+", 3], t[0], t[1]], [["+", 0], t[2], t[3]]])
+            items = st.one_of(items, items, desc)
         return st.tuples(st.just("add_edges_from"), st.just(fmt), items, a, outer).map(list)
 
     setattr_modes = lambda key: st.one_of(  # noqa: E731
@@ -87,7 +91,7 @@ def op_strategy(kind, none_p=True, bulk_empty=True, heavy=True, only=None):
         (4, "remove_node_from_edge", st.tuples(st.just("remove_node_from_edge"), ex, nm, b).map(list)),
         (1, "update", st.tuples(st.just("update"), st.one_of(st.none(), st.lists(members_of(kind, 1, 3, False), max_size=2)), st.one_of(st.none(), st.lists(n, max_size=2))).map(list)),
         (1, "set_net_attr", st.tuples(st.just("set_net_attr"), st.sampled_from(["name", "tag"]), nets.attr_value).map(list)),
-        (5, "merge_duplicate_edges", st.tuples(st.just("merge_duplicate_edges"), st.sampled_from(["first", "tuple", "new"]), st.sampled_from(["first", "union", "intersection"]), st.sampled_from([None, "mult"])).map(list)),
+        (7, "merge_duplicate_edges", st.tuples(st.just("merge_duplicate_edges"), st.sampled_from(["first", "first", "tuple", "tuple", "new"]), st.sampled_from(["first", "union", "intersection"]), st.sampled_from([None, "mult"])).map(list)),
     ]
     if heavy:
         ops += [
@@ -119,6 +123,7 @@ def init_strategy(kind):
         st.tuples(st.just("inc"), st.integers(1, 4), st.integers(1, 4), st.lists(st.integers(0, 1), min_size=16, max_size=16)).map(list),
         st.tuples(st.just("copyof"), st.lists(st.tuples(eid_literal, mem).map(list), max_size=3, unique_by=lambda t: repr(t[0]))).map(list),
         # a network that went through a tuple-renaming merge and then re-used the freed IDs for new duplicates
+        st.tuples(st.just("after-merge"), mem, mem).map(list),
         st.tuples(st.just("after-merge"), mem, mem).map(list),
         # a fresh network whose only edge was added singly under a falsy explicit ID (0, 0.0, numpy 0): the counter must have moved
         st.tuples(st.just("first-explicit"), mem, st.sampled_from(["int", "int", "float", "npint"])).map(list),
